@@ -1013,6 +1013,12 @@ def classify(steps, bad):
     who = "target" if bad.get("name") == target else "other"
     if bad["what"] == "source-mutated":
         who = "source"
+    from harness.classify import _zero_width_on_broadcast_axis
+
+    if bad["what"].startswith(("entry-point-raises", "raises")) and _zero_width_on_broadcast_axis(str(bad.get("error", ""))):
+        # a stepped slice left a (1, 0) chunk on a length-1 axis and a later broadcast against it raises in chunk unification:
+        # the listed defect of the elementwise expression itself, not of the in-place update
+        return "broadcast-axis-zero-width-chunk"
     return f"history:{op}:{bad['what']}:{who}"
 
 
